@@ -5,8 +5,8 @@ if [ -n "$(git -C /repo status --porcelain)" ]; then echo "/repo has uncommitted
 cd /verif
 for d in seeded/*/; do
   s=$(basename $d); p=$(echo $s | cut -c1-3)
-  if ! git -C /repo apply --check $d/patch.diff 2>/dev/null; then echo "NOAPPLY $s"; continue; fi
-  git -C /repo apply $d/patch.diff
+  if ! git -C /repo apply --check /verif/$d/patch.diff 2>/dev/null; then echo "NOAPPLY $s"; continue; fi
+  git -C /repo apply /verif/$d/patch.diff
   out=$(./check $p --tier quick --no-evidence 2>&1); rc=$?
   git -C /repo checkout -- .
   n=$(echo "$out" | grep -c "^VIOLATION")
